@@ -248,3 +248,269 @@ Print Assumptions C07_lazy_chunk_call.
 Print Assumptions C07_lazy_compact_call.
 Print Assumptions C07_model_total_iter.
 Print Assumptions C07_model_total_stream.
+
+(* ======================================================================================== *)
+(* ---- laziness, general statements (proofs: theories/Iter/GapsLazy.v, GapsLazyS.v,
+        GapsPulls.v, GapsNeed.v, GapsCompose.v) ----
+   Vocabulary:
+     pulls_in run id        number of Next calls source id has received in the run (from its log)
+     agree_upto n l1 l2     sources holding l1 / l2 answer their first n Next calls alike: the same
+                            item, or both the end (forall i < n, nth_error l1 i = nth_error l2 i)
+     iter_items s           the items an iterator pipeline reads from source s (= Spec.src_items
+                            for the sources of package iterator)
+     pipe_agree n p1 p2     p1 and p2 are the same pipeline (combinators, parameters, source ids),
+                            except that the source with id [id] may hold other items from position
+                            n id on (agree_upto (n id))
+     stream_answer s i      what a stream source answers to its (i+1)-th Next with a live context:
+                            Item, End or Err (a transient error once, a fatal error for ever)
+     spipe_agree n p1 p2    the same for stream pipelines, with stream_answer
+     pipe_resrc g p         p with every source (id, s) replaced by g id s
+     resuffix n junk l      l with everything behind its first n answers replaced by junk
+     ksteps k               the program "k Next calls"                                          *)
+From Juniper Require Import Iter.GapsLazy Iter.GapsLazyS Iter.GapsPulls Iter.GapsNeed
+  Iter.GapsCompose.
+
+(* (a) PREFIX DETERMINACY, every iterator pipeline, every consumer program: what has been
+   observed - results, pull counts after every step, the log - depends only on the answers the
+   sources have given so far.  Pipelines whose sources agree on the first (pulls_in run1 id)
+   answers have identical runs. *)
+Theorem C07_lazy_prefix_determinacy : forall cfg p1 p2 ops,
+  pipe_agree (pulls_in (run_iter_cfg cfg p1 (Steps ops))) p1 p2 ->
+  run_iter_cfg cfg p2 (Steps ops) = run_iter_cfg cfg p1 (Steps ops).
+Proof. exact iter_prefix_determinacy. Qed.
+
+(* the same, literally "the unread suffix of every source can be replaced by anything" *)
+Theorem C07_lazy_unread_suffix_irrelevant : forall cfg p ops (junk : nat -> list Z),
+  let run := run_iter_cfg cfg p (Steps ops) in
+  run_iter_cfg cfg
+    (pipe_resrc (fun id s => SSlice (resuffix (pulls_in run id) (junk id) (iter_items s))) p)
+    (Steps ops) = run.
+Proof. exact iter_resuffix. Qed.
+
+(* step level: related states, any two (sufficient) fuels - in particular the model does not
+   depend on its fuel *)
+Theorem C07_lazy_step : forall f1 f2,
+  pd_sim irel (inext f1) (inext f2) /\ pd_sim ilrel (ilnext f1) (ilnext f2).
+Proof. exact inext_pd. Qed.
+
+(* (a) for stream pipelines, with transient and fatal source errors, failing callbacks, expired
+   contexts and Close: Next and Close events included *)
+Theorem C07_lazy_prefix_determinacy_stream : forall cfg p1 p2 ops,
+  spipe_agree (pulls_in (run_stream_cfg cfg p1 (Steps ops))) p1 p2 ->
+  run_stream_cfg cfg p2 (Steps ops) = run_stream_cfg cfg p1 (Steps ops).
+Proof. exact stream_prefix_determinacy. Qed.
+
+Theorem C07_lazy_unread_irrelevant_stream : forall cfg p ops g,
+  (forall id s i, (i < pulls_in (run_stream_cfg cfg p (Steps ops)) id)%nat ->
+                  stream_answer s i = stream_answer (g id s) i) ->
+  run_stream_cfg cfg (pipe_resrc g p) (Steps ops) = run_stream_cfg cfg p (Steps ops).
+Proof. exact stream_unread_irrelevant. Qed.
+
+(* ---- run-level cumulative pull counts of the single combinators over a Slice, for EVERY k ----
+   (after the end has been reported every further call asks the exhausted source once more;
+   Join and Flatten drop an exhausted source instead) *)
+Theorem C07_lazy_peek : forall id cfg l k,
+  let run := run_iter_cfg cfg (inl (ZPeek (ZSrc id (SSlice l)))) (ksteps k) in
+  count_next id (ro_log run) = k /\ results run = expect (map IZ l) k.
+Proof. exact peek_pulls_exact. Qed.
+
+Theorem C07_lazy_map : forall id cfg g fl l k,
+  let run := run_iter_cfg cfg (inl (ZMap g fl (ZSrc id (SSlice l)))) (ksteps k) in
+  count_next id (ro_log run) = k /\ results run = expect (map IZ (map (fn_eval g) l)) k.
+Proof. exact map_pulls_exact. Qed.
+
+Theorem C07_lazy_first : forall id cfg n l k,
+  let run := run_iter_cfg cfg (inl (ZFirst n (ZSrc id (SSlice l)))) (ksteps k) in
+  count_next id (ro_log run) = Nat.min k (Z.to_nat n) /\
+  results run = expect (map IZ (firstn (Z.to_nat n) l)) k.
+Proof. exact first_pulls_exact. Qed.
+
+(* while_pulls f l k = min k (t+1) if the item at position t = |takewhile f l| fails f, else k *)
+Theorem C07_lazy_while : forall id f cfg fl l k,
+  let run := run_iter_cfg cfg (inl (ZWhile f fl (ZSrc id (SSlice l)))) (ksteps k) in
+  count_next id (ro_log run) = while_pulls f l k /\
+  results run = expect (map IZ (takewhile (pred_eval f) l)) k.
+Proof. exact while_pulls_exact. Qed.
+
+(* filter_pos / compact_pos: position of the k-th item kept / yielded (+1); once the items have
+   run out: all of them, and the end once per call *)
+Theorem C07_lazy_filter_all : forall id keep cfg fl l k,
+  let run := run_iter_cfg cfg (inl (ZFilter keep fl (ZSrc id (SSlice l)))) (ksteps k) in
+  count_next id (ro_log run) = filter_pos keep l k /\
+  results run = expect (map IZ (filter (pred_eval keep) l)) k.
+Proof. exact filter_pulls_all. Qed.
+
+Theorem C07_lazy_compact : forall id r cfg l k,
+  let run := run_iter_cfg cfg (inl (ZCompact r (ZSrc id (SSlice l)))) (ksteps k) in
+  count_next id (ro_log run) = compact_pos r l k /\
+  results run = expect (map IZ (spec_compact (rel_eval r) l)) k.
+Proof. exact compact_pulls_exact. Qed.
+
+(* chunk_pulls n len k = k*n while k <= len/n, then len + (k - len/n): no look-ahead after a
+   full chunk *)
+Theorem C07_lazy_chunk : forall id n, 1 <= n -> forall cfg l k,
+  let run := run_iter_cfg cfg (inr (LChunk n (ZSrc id (SSlice l)))) (ksteps k) in
+  count_next id (ro_log run) = chunk_pulls n (length l) k /\
+  results run = expect (map IL (spec_chunk n l)) k.
+Proof. exact chunk_pulls_exact. Qed.
+
+(* join_pulls id srcs k: nothing while the items of the earlier sources last, then one pull per
+   call up to (its length + 1), then never again; the same for Flatten *)
+Theorem C07_lazy_join : forall id cfg srcs k,
+  let run := run_iter_cfg cfg (inl (ZJoin (map src_pz srcs))) (ksteps k) in
+  count_next id (ro_log run) = join_pulls id srcs k /\
+  results run = expect (map IZ (concat (map snd srcs))) k.
+Proof. exact join_pulls_exact. Qed.
+
+Theorem C07_lazy_flatten : forall id cfg srcs k,
+  let run := run_iter_cfg cfg (inl (ZFlatten (map src_pz srcs))) (ksteps k) in
+  count_next id (ro_log run) = join_pulls id srcs k /\
+  results run = expect (map IZ (concat (map snd srcs))) k.
+Proof. exact flatten_pulls_exact. Qed.
+
+(* ---- (b) NECESSITY.  needed cfg C id l k: if the source has been asked n >= 1 times after k
+   calls on C (Slice l), some l' that answers the first n-1 calls like l gives other results in
+   these k calls.  FALSE in general (opaque callbacks; no memory of the end): ---- *)
+Theorem C07_lazy_necessity_refuted_filter :
+  let C l := inl (ZFilter (PrNot PrTrue) never_fails (ZSrc 0 (SSlice l))) in
+  pulls_in (run_iter (C [1; 2; 3]) (ksteps 1)) 0 = 4%nat /\
+  (forall l', results (run_iter (C l') (ksteps 1)) = [REnd]) /\
+  ~ needed current_cfg C 0 [1; 2; 3] 1.
+Proof. exact necessity_refuted_filter. Qed.
+
+Theorem C07_lazy_necessity_refuted_compose :
+  let C l := inl (ZFilter (PrLt 0) never_fails
+                    (ZMap (FnAffine 0 5) never_fails (ZSrc 0 (SSlice l)))) in
+  (pred_eval (PrLt 0) (-1) = true /\ pred_eval (PrLt 0) 1 = false) /\
+  pulls_in (run_iter (C [1; 2; 3]) (ksteps 1)) 0 = 4%nat /\
+  ~ needed current_cfg C 0 [1; 2; 3] 1.
+Proof. exact necessity_refuted_compose. Qed.
+
+Theorem C07_lazy_necessity_refuted_after_end :
+  let C l := inl (ZMap (FnAffine 1 0) never_fails (ZSrc 0 (SSlice l))) in
+  pulls_in (run_iter (C [7]) (ksteps 3)) 0 = 3%nat /\ ~ needed current_cfg C 0 [7] 3.
+Proof. exact necessity_refuted_after_end. Qed.
+
+(* TRUE for every single combinator, up to and including the first call that reads the end, under
+   the stated condition on the callback *)
+Theorem C07_lazy_needed_peek : forall cfg id l k,
+  (1 <= k <= length l + 1)%nat ->
+  needed cfg (fun l => inl (ZPeek (ZSrc id (SSlice l)))) id l k.
+Proof. exact peek_needed. Qed.
+
+Theorem C07_lazy_needed_map : forall cfg id g fl l k,
+  (1 <= k <= length l + 1)%nat ->
+  needed cfg (fun l => inl (ZMap g fl (ZSrc id (SSlice l)))) id l k.
+Proof. exact map_needed. Qed.
+
+Theorem C07_lazy_needed_first : forall cfg id n l k,
+  (k <= Nat.min (Z.to_nat n) (length l) + 1)%nat ->
+  needed cfg (fun l => inl (ZFirst n (ZSrc id (SSlice l)))) id l k.
+Proof. exact first_needed. Qed.
+
+Theorem C07_lazy_needed_filter : forall cfg id keep fl l k,
+  (exists y, pred_eval keep y = true) ->
+  (1 <= k <= length (filter (pred_eval keep) l) + 1)%nat ->
+  needed cfg (fun l => inl (ZFilter keep fl (ZSrc id (SSlice l)))) id l k.
+Proof. exact filter_needed. Qed.
+
+Theorem C07_lazy_needed_while : forall cfg id f fl l k,
+  (exists y, pred_eval f y = true) ->
+  (1 <= k <= length (takewhile (pred_eval f) l) + 1)%nat ->
+  needed cfg (fun l => inl (ZWhile f fl (ZSrc id (SSlice l)))) id l k.
+Proof. exact while_needed. Qed.
+
+Theorem C07_lazy_needed_compact : forall cfg id r l k,
+  (forall x, exists y, rel_eval r x y = false) ->
+  (1 <= k <= length (spec_compact (rel_eval r) l) + 1)%nat ->
+  needed cfg (fun l => inl (ZCompact r (ZSrc id (SSlice l)))) id l k.
+Proof. exact compact_needed. Qed.
+
+(* Chunk: up to the call that reads the end (k <= len/n + 1); when the last chunk is short, that
+   call hands it out and the NEXT call asks the exhausted source again *)
+Theorem C07_lazy_needed_chunk : forall cfg id n, 1 <= n -> forall l k,
+  (1 <= k <= length l / Z.to_nat n + 1)%nat ->
+  needed cfg (fun l => inr (LChunk n (ZSrc id (SSlice l)))) id l k.
+Proof. exact chunk_needed. Qed.
+
+(* ---- laziness composes: over an ARBITRARY inner pipeline q a combinator C (plug c: WithPeek,
+   Compact, Filter, First, Map, While, Chunk) makes q do exactly m stand-alone Next calls,
+   m = the number of calls C makes on a Slice holding q's items (the formulas above) ---- *)
+Theorem C07_lazy_compose : forall cfg c q k,
+  iter_supported_z q = true -> dom_z q ->
+  let m := pulls_in (run_iter_cfg cfg (plug c (ZSrc 0 (SSlice (den_z q)))) (ksteps k)) 0 in
+  ro_log (run_iter_cfg cfg (plug c q) (ksteps k))
+  = ro_log (run_iter_cfg cfg (inl q) (ksteps m)).
+Proof. exact compose_pulls. Qed.
+
+Theorem C07_lazy_compose_counts : forall cfg c q k id,
+  iter_supported_z q = true -> dom_z q ->
+  let m := pulls_in (run_iter_cfg cfg (plug c (ZSrc 0 (SSlice (den_z q)))) (ksteps k)) 0 in
+  pulls_in (run_iter_cfg cfg (plug c q) (ksteps k)) id
+  = pulls_in (run_iter_cfg cfg (inl q) (ksteps m)) id.
+Proof. exact compose_pull_counts. Qed.
+
+(* e.g. C07_lazy_filter for an arbitrary inner pipeline *)
+Theorem C07_lazy_filter_over_any : forall cfg keep fl q k id,
+  iter_supported_z q = true -> dom_z q ->
+  pulls_in (run_iter_cfg cfg (inl (ZFilter keep fl q)) (ksteps k)) id
+  = pulls_in (run_iter_cfg cfg (inl q) (ksteps (filter_pos keep (den_z q) k))) id.
+Proof. exact filter_over_any. Qed.
+
+(* and the m-th call of q.Next was needed by C whenever it is needed over a Slice *)
+Theorem C07_lazy_compose_needed : forall cfg c q k,
+  iter_supported_z q = true -> dom_z q -> ctx_dom c ->
+  needed cfg (fun l => plug c (ZSrc 0 (SSlice l))) 0 (den_z q) k ->
+  let m := pulls_in (run_iter_cfg cfg (plug c (ZSrc 0 (SSlice (den_z q)))) (ksteps k)) 0 in
+  ro_log (run_iter_cfg cfg (plug c q) (ksteps k)) = ro_log (run_iter_cfg cfg (inl q) (ksteps m)) /\
+  ((1 <= m)%nat ->
+   exists l', agree_upto (m - 1) (den_z q) l' /\
+              results (run_iter_cfg cfg (plug c (ZSrc 0 (SSlice l'))) (ksteps k))
+              <> results (run_iter_cfg cfg (plug c q) (ksteps k))).
+Proof. exact compose_needed. Qed.
+
+(* non-vacuity *)
+Example C07_lazy_demo_agree :
+  pipe_agree (pulls_in (run_iter (inl pd_demo) (Steps (map CNext [true; true; true]))))
+             (inl pd_demo) (inl pd_demo2) /\
+  run_iter (inl pd_demo2) (Steps (map CNext [true; true; true]))
+  = run_iter (inl pd_demo) (Steps (map CNext [true; true; true])).
+Proof. exact (conj pd_demo_agree pd_demo_same). Qed.
+Example C07_lazy_demo_stream :
+  run_stream spd_demo2 (Steps spd_ops) = run_stream spd_demo (Steps spd_ops) /\
+  map so_res (ro_steps (run_stream spd_demo (Steps spd_ops)))
+  = [RErr 9; RErr (-1); RItem (IL [1; 2]); RUnit].
+Proof. exact (conj spd_demo_same (proj1 spd_demo_run)). Qed.
+Example C07_lazy_demo_pulls :
+  map (chunk_pulls 3 7) [0; 1; 2; 3; 4]%nat = [0; 3; 6; 8; 9]%nat /\
+  map (filter_pos (PrModEq 2 0) [1; 2; 3; 4]) [0; 1; 2; 3; 4]%nat = [0; 2; 4; 5; 6]%nat.
+Proof. vm_compute. split; reflexivity. Qed.
+
+Print Assumptions C07_lazy_prefix_determinacy.
+Print Assumptions C07_lazy_unread_suffix_irrelevant.
+Print Assumptions C07_lazy_step.
+Print Assumptions C07_lazy_prefix_determinacy_stream.
+Print Assumptions C07_lazy_unread_irrelevant_stream.
+Print Assumptions C07_lazy_peek.
+Print Assumptions C07_lazy_map.
+Print Assumptions C07_lazy_first.
+Print Assumptions C07_lazy_while.
+Print Assumptions C07_lazy_filter_all.
+Print Assumptions C07_lazy_compact.
+Print Assumptions C07_lazy_chunk.
+Print Assumptions C07_lazy_join.
+Print Assumptions C07_lazy_flatten.
+Print Assumptions C07_lazy_necessity_refuted_filter.
+Print Assumptions C07_lazy_necessity_refuted_compose.
+Print Assumptions C07_lazy_necessity_refuted_after_end.
+Print Assumptions C07_lazy_needed_peek.
+Print Assumptions C07_lazy_needed_map.
+Print Assumptions C07_lazy_needed_first.
+Print Assumptions C07_lazy_needed_filter.
+Print Assumptions C07_lazy_needed_while.
+Print Assumptions C07_lazy_needed_compact.
+Print Assumptions C07_lazy_needed_chunk.
+Print Assumptions C07_lazy_compose.
+Print Assumptions C07_lazy_compose_counts.
+Print Assumptions C07_lazy_filter_over_any.
+Print Assumptions C07_lazy_compose_needed.
